@@ -454,8 +454,8 @@ def name_case():
 
 def explore(rec):
     quick = rec.tier == "quick"
-    rec.hyp("every-line", lines_case(), 900 if quick else 25000)
-    rec.hyp("location-lists", list_case(), 900 if quick else 20000)
+    rec.hyp("every-line", lines_case(), 2000 if quick else 30000)
+    rec.hyp("location-lists", list_case(), 2000 if quick else 25000)
     rec.hyp("location-strings", locparse_case(), 600 if quick else 5000)
     rec.hyp("name-selection", name_case(), 1200 if quick else 25000)
 
